@@ -29,9 +29,11 @@ fn produce(rng: &mut Rng, ctx: &mut Ctx) -> Option<(BMOC, String)> {
     }
     _ => {
       let dm = 1 + rng.below(5) as u8; let nb = 1 + rng.below(12); let bases: Vec<u64> = (0..nb).collect(); let wp = rng.coin(); let mut c = Vec::new(); gen_tree(rng, dm.min(4), &bases, wp, &mut c);
-      let mode = rng.below(3); let nd = rng.below(dm as u64) as u8;
+      let mode = rng.below(4); let nd = rng.below(dm as u64) as u8;
       if mode == 1 { pack_model(&mut c); }
-      (catch(|| { let mut b = BMOCBuilderUnsafe::new(dm, 8); for &(d, h, f) in &c { b.push(d, h, f); } match mode { 0 => b.to_bmoc_packing(), 1 => b.to_lower_depth_bmoc(nd), _ => b.to_lower_depth_bmoc_packing(nd) } }), format!("unsafe-builder[mode={} dm={} nd={} {}]", mode, dm, nd, cells_to_str(&c)))
+      // mode 3: cells pushed in random order, then to_bmoc_from_unordered
+      let mut order: Vec<usize> = (0..c.len()).collect(); if mode == 3 { for i in (1..order.len()).rev() { let j = rng.below(i as u64 + 1) as usize; order.swap(i, j); } }
+      (catch(|| { let mut b = BMOCBuilderUnsafe::new(dm, 8); for &k in &order { let (d, h, f) = c[k]; b.push(d, h, f); } match mode { 0 => b.to_bmoc_packing(), 1 => b.to_lower_depth_bmoc(nd), 2 => b.to_lower_depth_bmoc_packing(nd), _ => b.to_bmoc_from_unordered() } }), format!("unsafe-builder[mode={} dm={} nd={} {}]", mode, dm, nd, cells_to_str(&c)))
     }
   };
   match r.0 { Ok(b) => Some((b, r.1)), Err(_) => { ctx.info("producer-panicked(judged-by-its-own-property)"); None } }
